@@ -3,14 +3,14 @@ from contracts import shape as _shape
 from contracts import util as _util
 
 META = {
-    'level_text': 'Proof for all shapes, parities, shifts and radii of: pad (2-D and cubes, every grow/shrink mix: the full index map, hence the origin sample floor(n/2) -> floor(N/2)), subarray, window, boundary (tight bounding box, quantified), boundary_slice (bounding box widened and clamped, contains the support), slice_offset (local index keeps its global coordinate), mesh origin, and for circle / rectangle / hexagon: values in [0,1], binary without antialiasing, exact integer translation, half-turn and mirror symmetry. pad to a larger shape then back is the identity (lemma over pad\'s contract, 2-D and cubes). rebin of 2-D arrays (every shape and factor: each output sample is the sum of its f x f block, shapes that are not a whole number of blocks are refused with ValueError, the input is not written). rebin of cubes, sum preservation by re-indexing, centroid, hex_ring and hex_segments (count, non-overlap for gap > 0, border clearance) are bounded native stand-ins, reported separately and never counted as proved.',
+    'level_text': 'Proof for all shapes, parities, shifts and radii of: pad (2-D and cubes, every grow/shrink mix: the full index map, hence the origin sample floor(n/2) -> floor(N/2)), subarray, window, boundary (tight bounding box, quantified), boundary_slice (bounding box widened and clamped, contains the support), slice_offset (local index keeps its global coordinate), mesh origin, and for circle / rectangle / hexagon: values in [0,1], binary without antialiasing, exact integer translation, half-turn and mirror symmetry. pad to a larger shape then back is the identity (lemma over pad\'s contract, 2-D and cubes). rebin of 2-D arrays (every shape and factor: each output sample is the sum of its f x f block, shapes that are not a whole number of blocks are refused with ValueError, the input is not written). centroid (any shape, non-zero total): (sum i a / sum a, sum j a / sum a) in index coordinates (the sum over the flattened index is written as the double sum: row-major re-indexing, library contract). rebin of cubes, sum preservation by re-indexing, hex_ring and hex_segments (count, non-overlap for gap > 0, border clearance) are bounded native stand-ins, reported separately and never counted as proved.',
     'level_note': 'Trusted: lvc encoding; sqrt / sin / cos uninterpreted (sqrt: s >= 0, s*s = x; sin, cos: half-turn identities instantiated at the six hexagon side angles); numpy contracts listed in the evidence; reals for floats (A2). "Equal area up to edge sampling" is not decided.',
 }
 FUNCTIONS = [
     'lentil.util.pad', 'lentil.util.subarray', 'lentil.util.window', 'lentil.util.boundary',
     'lentil.helper.mesh', 'lentil.helper.boundary_slice', 'lentil.helper.slice_offset',
     'lentil.shape.circle', 'lentil.shape.rectangle', 'lentil.shape.hexagon',
-] + list(_util.REBIN)
+] + list(_util.REBIN) + ['lentil.util.centroid#moments']
 LEMMAS = list(_shape.LEMMAS) + list(_util.LEMMAS)
 
 
